@@ -1,354 +1,285 @@
-"""Hunt for violations of C09 on the unmodified tree.
-
-Run: cd /tmp/wt/C09i && PYTHONPATH=/tmp/wt/C09i/src /venv/bin/python hunt_C09.py
-
-Oracles:
-  * rule_oracle(): written from PEP 600 / 656 / the macOS rules in the property text
-  * packaging.tags with its probes stubbed (sysconfig.get_platform, glibc / musl version,
-    ELF ABI check, platform.system, platform.mac_ver, 32-bit flag)
-"""
-
+"""Shared oracle for property C09 (independent of the library's code)."""
 from __future__ import annotations
 
 import contextlib
-import itertools
-import platform as _platform
-import sys
-import sysconfig
-from collections import Counter
 from unittest import mock
 
-import packaging
-import packaging._manylinux as ML
-import packaging._musllinux as MU
-import packaging.tags as T
-
-from dep_logic.tags import EnvSpec, Platform, PlatformError
-from dep_logic.tags import os as dos
-from dep_logic.tags.platform import Arch
-from dep_logic.specifiers import parse_version_specifier
-
 LINUX_ARCHS = ["x86_64", "aarch64", "armv7l", "ppc64le", "ppc64", "s390x", "riscv64"]
-findings: list[str] = []
-cases = Counter()
+MAC_ARCHS = ["x86_64", "arm64"]
+WIN = {"x86": "win32", "amd64": "win_amd64", "arm64": "win_arm64"}
+LEGACY = {5: "manylinux1", 12: "manylinux2010", 17: "manylinux2014"}
 
 
-def report(kind: str, text: str) -> None:
-    findings.append(f"[{kind}] {text}")
+def is_fat(tag: str) -> bool:
+    return tag.startswith("macosx_") and tag.rsplit("_", 1)[1].startswith("fat")
 
 
-# --------------------------------------------------------------------------- oracles
-def rule_oracle(p: Platform) -> list[str]:
-    """Independent statement of the standards (newest first; linux_<arch> position left
-    out of the order comparison, it is compared separately)."""
-    o, a = p.os, p.arch.value
-    if isinstance(o, dos.Manylinux):
-        floor = 5 if a in ("x86_64", "i686") else 17
-        legacy = {5: "manylinux1", 12: "manylinux2010", 17: "manylinux2014"}
-        out = []
-        k = o.minor
-        while k >= floor:
-            out.append(f"manylinux_2_{k}_{a}")
-            if k in legacy:
-                out.append(f"{legacy[k]}_{a}")
-            k -= 1
-        return out + [f"linux_{a}"]
-    if isinstance(o, dos.Musllinux):
-        return [f"musllinux_1_{k}_{a}" for k in range(o.minor, 0, -1)] + [f"linux_{a}"]
-    if isinstance(o, dos.Macos):
-        a = "arm64" if p.arch is Arch.Aarch64 else "x86_64"
-        fm = ["arm64", "universal2"] if a == "arm64" else ["x86_64", "intel", "universal2", "universal"]
-        rel = []
-        if o.major >= 11:
-            rel += [(m, 0) for m in range(o.major, 10, -1)]
-            rel += [(10, m) for m in range(16, 3, -1)]
-        else:
-            rel += [(10, m) for m in range(o.minor, 3, -1)]
-        out = []
-        for M, m in rel:
-            for f in fm:
-                if f == "arm64" and M < 11:
-                    continue
-                out.append(f"macosx_{M}_{m}_{f}")
-        return out
-    if isinstance(o, dos.Windows):
-        return [{"x86": "win32", "x86_64": "win_amd64", "aarch64": "win_arm64"}[p.arch.value]]
-    raise AssertionError(p)
-
-
-@contextlib.contextmanager
-def stub_linux(arch: str, glibc=None, musl=None, bits32=False):
-    with contextlib.ExitStack() as st:
-        st.enter_context(mock.patch.object(sysconfig, "get_platform", lambda: f"linux-{arch}"))
-        st.enter_context(mock.patch.object(_platform, "system", lambda: "Linux"))
-        st.enter_context(mock.patch.object(ML, "_get_glibc_version", lambda: glibc or (-1, -1)))
-        st.enter_context(mock.patch.object(ML, "_have_compatible_abi", lambda exe, archs: True))
-        st.enter_context(
-            mock.patch.object(MU, "_get_musl_version", lambda exe: MU._MuslVersion(*musl) if musl else None)
-        )
-        # the 32-bit flag is bound as a default argument of _linux_platforms
-        st.enter_context(mock.patch.object(T._linux_platforms, "__defaults__", (bits32,)))
-        yield
-
-
-def packaging_linux(arch: str, glibc=None, musl=None) -> list[str]:
-    with stub_linux(arch, glibc, musl):
-        return list(T._linux_platforms(is_32bit=False))
-
-
-def scores(p: Platform, tags: list[str]) -> dict[str, int | None]:
-    env = EnvSpec(parse_version_specifier(">=3.8"), p, None)
-    out = {}
-    for t in tags:
-        c = env.compatibility(["py3"], ["none"], [t])
-        out[t] = None if c is None else c[3]
+def oracle_manylinux(minor: int, arch: str) -> list[str]:
+    """PEP 600 / 513 / 571 / 599, newest first; linux_<arch> appended last
+    (position of linux_<arch> is a known finding, we only keep it out of the way)."""
+    floor = 5 if arch in ("x86_64", "i686") else 17
+    out = []
+    k = minor
+    while k >= floor:
+        out.append(f"manylinux_2_{k}_{arch}")
+        if k in LEGACY:
+            out.append(f"{LEGACY[k]}_{arch}")
+        k -= 1
+    out.append(f"linux_{arch}")
     return out
 
 
-# --------------------------------------------------------------------------- 1. exhaustive
-def all_platforms():
-    for k in range(5, 51):
-        for a in LINUX_ARCHS:
-            yield Platform(dos.Manylinux(2, k), Arch(a))
-    for k in range(1, 6):
-        for a in LINUX_ARCHS:
-            yield Platform(dos.Musllinux(1, k), Arch(a))
+def oracle_musllinux(minor: int, arch: str) -> set[str]:
+    return {f"linux_{arch}"} | {f"musllinux_1_{k}_{arch}" for k in range(1, minor + 1)}
+
+
+def oracle_macos(major: int, minor: int, arch: str) -> list[str]:
+    """macOS rules, newest first, fat* left out."""
+    x86 = arch == "x86_64"
+    fmts = ["x86_64", "intel", "universal2", "universal"] if x86 else ["arm64", "universal2"]
+    out = []
+    if major == 10:
+        assert x86
+        for m in range(minor, 3, -1):
+            out += [f"macosx_10_{m}_{f}" for f in fmts]
+        return out
+    for M in range(major, 10, -1):
+        out += [f"macosx_{M}_0_{f}" for f in fmts]
+    for m in range(16, 3, -1):
+        out += [f"macosx_10_{m}_{f}" for f in (fmts if x86 else ["universal2"])]
+    return out
+
+
+@contextlib.contextmanager
+def _stub_glibc(minor):
+    from packaging import _manylinux
+
+    with mock.patch.object(_manylinux, "_get_glibc_version", lambda: (2, minor)), \
+            mock.patch.object(_manylinux, "_have_compatible_abi", lambda exe, archs: True), \
+            mock.patch.object(_manylinux, "_is_compatible", lambda arch, v: True):
+        yield
+
+
+def packaging_manylinux(minor: int, arch: str) -> list[str]:
+    from packaging import _manylinux
+
+    with _stub_glibc(minor):
+        return list(_manylinux.platform_tags([arch]))
+
+
+def packaging_musllinux(minor: int, arch: str) -> list[str]:
+    from packaging import _musllinux
+
+    with mock.patch.object(
+        _musllinux, "_get_musl_version", lambda exe: _musllinux._MuslVersion(1, minor)
+    ):
+        return list(_musllinux.platform_tags([arch]))
+
+
+def packaging_macos(major: int, minor: int, arch: str) -> list[str]:
+    from packaging import tags
+
+    return [t for t in tags.mac_platforms((major, minor), arch) if not is_fat(t)]
+
+
+def all_targets():
+    """(platform string for Platform.parse, kind, oracle list-or-set) over the quantifier."""
+    for arch in LINUX_ARCHS:
+        for k in range(5, 51):
+            yield f"manylinux_2_{k}_{arch}", "manylinux", (k, arch)
+        for k in range(1, 6):
+            yield f"musllinux_1_{k}_{arch}", "musllinux", (k, arch)
     for k in range(4, 17):
-        yield Platform(dos.Macos(10, k), Arch.X86_64)
+        yield f"macos_10_{k}_x86_64", "macos", (10, k, "x86_64")
     for M in range(11, 31):
-        for m in range(0, 10):
-            for a in (Arch.X86_64, Arch.Aarch64):
-                yield Platform(dos.Macos(M, m), a)
-    for a in (Arch.X86, Arch.X86_64, Arch.Aarch64):
-        yield Platform(dos.Windows(), a)
+        for m in (0, 1, 3, 7):
+            for arch in MAC_ARCHS:
+                yield f"macos_{M}_{m}_{arch}", "macos", (M, m, arch)
+    for a in WIN:
+        yield f"windows_{a}", "windows", (a,)
 
 
-def section_exhaustive():
-    diff_kinds: dict[str, list[str]] = {}
+def universe() -> list[str]:
+    """Candidate wheel platform tags, including near misses."""
+    u = {"any"}
+    for arch in LINUX_ARCHS + ["i686", "x86", "arm64", "amd64"]:
+        u.add(f"linux_{arch}")
+        for k in range(0, 53):
+            u.add(f"manylinux_2_{k}_{arch}")
+            u.add(f"manylinux_1_{k}_{arch}")
+            u.add(f"manylinux_3_{k}_{arch}")
+        for k in range(0, 8):
+            u.add(f"musllinux_1_{k}_{arch}")
+            u.add(f"musllinux_2_{k}_{arch}")
+        for l in ("manylinux1", "manylinux2010", "manylinux2014", "manylinux2", "manylinux2024"):
+            u.add(f"{l}_{arch}")
+    for fmt in ("x86_64", "arm64", "universal2", "universal", "intel", "i386", "ppc", "aarch64"):
+        for k in range(0, 19):
+            u.add(f"macosx_10_{k}_{fmt}")
+        for M in range(9, 33):
+            for m in (0, 1, 3):
+                u.add(f"macosx_{M}_{m}_{fmt}")
+    u |= {"win32", "win_amd64", "win_arm64", "win_x86_64", "win_x86", "win_ia64", "win64", "windows_amd64"}
+    return sorted(u)
 
-    def note(kind, example):
-        diff_kinds.setdefault(kind, []).append(example)
 
-    for p in all_platforms():
-        cases["platform lists"] += 1
-        lib = list(p.compatible_tags)
-        assert len(lib) == len(set(lib)), ("duplicate tags", p)
-        rule = rule_oracle(p)
-        o = p.os
-        if isinstance(o, dos.Manylinux):
-            pk = packaging_linux(p.arch.value, glibc=(2, o.minor))
-        elif isinstance(o, dos.Musllinux):
-            pk = packaging_linux(p.arch.value, musl=(1, o.minor))
-        elif isinstance(o, dos.Macos):
-            pk = list(T.mac_platforms((o.major, o.minor), "arm64" if p.arch is Arch.Aarch64 else "x86_64"))
+# --------------------------------------------------------------------------- hunt
+def main() -> int:
+    import copy
+    import pickle
+
+    from dep_logic.tags import EnvSpec
+    from dep_logic.tags import os as dos
+    from dep_logic.tags.platform import Arch, Platform
+
+    findings: list[str] = []
+    ncases = 0
+    U = universe()
+
+    def lib_arch(a):
+        return Arch.parse(a)
+
+    for text, kind, args in all_targets():
+        p = Platform.parse(text)
+        # second construction route: raw constructors
+        if kind == "manylinux":
+            q = Platform(dos.Manylinux(2, args[0]), lib_arch(args[1]))
+        elif kind == "musllinux":
+            q = Platform(dos.Musllinux(1, args[0]), lib_arch(args[1]))
+        elif kind == "macos":
+            q = Platform(dos.Macos(args[0], args[1]), lib_arch(args[2]))
         else:
-            pk = rule  # statically specified, no packaging generator
+            q = Platform(dos.Windows(), lib_arch(args[0]))
+        if p != q or hash(p) != hash(q):
+            findings.append(f"parse({text!r}) = {p!r} != constructed {q!r}")
+        if Platform.parse(str(p)) != p:
+            findings.append(f"str/parse round trip: {text!r} -> {str(p)!r} -> {Platform.parse(str(p))!r}")
+        got = [t for t in p.compatible_tags if not is_fat(t)]
+        if len(set(p.compatible_tags)) != len(p.compatible_tags):
+            findings.append(f"{text}: duplicate tags")
+        if kind == "manylinux":
+            want = oracle_manylinux(*args)
+            pk = packaging_manylinux(*args) + [f"linux_{args[1]}"]
+            if want != pk:
+                findings.append(f"ORACLES DISAGREE {text}")
+            ok = got == want
+        elif kind == "musllinux":
+            want = oracle_musllinux(*args)
+            pk = set(packaging_musllinux(*args)) - {f"musllinux_1_0_{args[1]}"} | {f"linux_{args[1]}"}
+            if want != pk:
+                findings.append(f"ORACLES DISAGREE {text}")
+            ok = set(got) == want
+        elif kind == "macos":
+            want = oracle_macos(*args)
+            if want != packaging_macos(*args):
+                findings.append(f"ORACLES DISAGREE {text}")
+            ok = got == want
+        else:
+            want = [WIN[args[0]]]
+            ok = got == want
+        ncases += 1
+        if not ok:
+            findings.append(f"{text}: compatible_tags={got[:6]}.. oracle={list(want)[:6]}..")
+        # fourth component of compatibility, via several entry points
+        wantl = list(want) if not isinstance(want, set) else None
+        specs = [
+            EnvSpec.from_spec(">=3.8", text),
+            EnvSpec.from_spec(">=3.8", text, "cpython"),
+            EnvSpec.from_spec(**EnvSpec.from_spec(">=3.8", text, "cpython").as_dict()),
+            copy.deepcopy(EnvSpec.from_spec(">=3.8", text)),
+            pickle.loads(pickle.dumps(EnvSpec.from_spec(">=3.8", text))),
+        ]
+        for si, spec in enumerate(specs):
+            tags = U if si == 0 else U[:: 7]
+            scores = {}
+            for t in tags:
+                ncases += 1
+                c = spec.compatibility(["py3"], ["none"], [t])
+                c2 = spec.wheel_compatibility(f"a-1-py3-none-{t}.whl")
+                if c != c2:
+                    findings.append(f"{text}: compatibility {c} != wheel_compatibility {c2} for {t}")
+                accepted = c is not None
+                if is_fat(t):
+                    continue
+                exp = t == "any" or t in want
+                if accepted != exp:
+                    findings.append(f"{text}: tag {t}: accepted={accepted} oracle={exp}")
+                if accepted:
+                    scores[t] = c[3]
+            if wantl is not None:
+                # order: newest first == strictly decreasing score along the oracle list; any is last
+                seq = [scores[t] for t in wantl if t in scores]
+                if any(a <= b for a, b in zip(seq, seq[1:])):
+                    findings.append(f"{text}: scores not strictly decreasing along packaging order")
+                if "any" in scores and seq and scores["any"] >= min(seq):
+                    findings.append(f"{text}: any does not score lowest")
+        # multi-tag wheels: the best tag wins, whatever the order of the compressed set
+        spec = specs[0]
+        if wantl and len(wantl) > 3:
+            import itertools
+            import random
 
-        # (a) library vs the rule oracle, fat* ignored as the property text says
-        lib_nofat = [t for t in lib if "_fat" not in t]
-        if isinstance(o, dos.Musllinux):
-            if set(lib_nofat) != set(rule):
-                note("rule-set", f"{p}: {sorted(set(lib_nofat) ^ set(rule))}")
-        elif lib_nofat != rule:
-            note("rule-order/set", f"{p}: lib={lib_nofat[:4]}.. rule={rule[:4]}..")
-
-        # (b) library vs packaging: set
-        extra = [t for t in lib if t not in pk]
-        missing = [t for t in pk if t not in lib]
-        for t in extra:
-            note("lib claims, packaging does not: " + t.split("_")[-1 if "fat" in t else 0], f"{p}: {t}")
-        for t in missing:
-            key = "fat3" if t.endswith("fat3") else ("musllinux_1_0" if "musllinux_1_0" in t else t)
-            note("packaging claims, lib does not: " + key, f"{p}: {t}")
-        # (c) order among common tags
-        common_lib = [t for t in lib if t in pk]
-        common_pk = [t for t in pk if t in lib]
-        if common_lib != common_pk:
-            wo = [t for t in common_lib if not t.startswith("linux_")]
-            wo_pk = [t for t in common_pk if not t.startswith("linux_")]
-            if wo == wo_pk:
-                note(
-                    f"order: linux_<arch> is {'first' if common_pk[0].startswith('linux_') else 'last'} in packaging "
-                    f"{packaging.__version__}, {'first' if common_lib[0].startswith('linux_') else 'last'} in the library "
-                    f"({type(o).__name__})",
-                    str(p),
+            rnd = random.Random(hash(text) & 0xFFFF)
+            for _ in range(20):
+                ncases += 1
+                ts = rnd.sample(wantl, 3) + rnd.sample(U, 2)
+                rnd.shuffle(ts)
+                c = spec.compatibility(["py3"], ["none"], ts)
+                best = max(
+                    (spec.compatibility(["py3"], ["none"], [t]) for t in ts),
+                    key=lambda x: (x is not None, x),
                 )
-            else:
-                note(f"order of non-linux tags differs ({type(o).__name__})", str(p))
+                if c != best:
+                    findings.append(f"{text}: multi-tag {ts}: {c} != best single {best}")
 
-        # (d) scores follow the list order, `any` strictly last, unknown tags rejected
-        sc = scores(p, lib + ["any", "bogus_tag"])
-        cases["score checks"] += len(sc)
-        seq = [sc[t] for t in lib] + [sc["any"]]
-        assert all(isinstance(s, int) for s in seq), (p, sc)
-        assert all(x > y for x, y in zip(seq, seq[1:])), ("scores not strictly decreasing", p)
-        assert sc["bogus_tag"] is None
-
-    for kind, ex in sorted(diff_kinds.items()):
-        report("exhaustive", f"{kind}: {len(ex)} occurrences, e.g. {ex[0]}")
-
-
-# --------------------------------------------------------------------------- 2. concrete packaging-26 divergences
-def section_concrete():
-    # 2a. preference of linux_<arch> relative to manylinux (list order == score)
-    p = Platform.parse("manylinux_2_28_x86_64")
-    env = EnvSpec.from_spec(">=3.9", "manylinux_2_28_x86_64", "cpython")
-    a = env.wheel_compatibility("pkg-1.0-cp39-abi3-linux_x86_64.whl")
-    b = env.wheel_compatibility("pkg-1.0-cp39-abi3-manylinux_2_28_x86_64.whl")
-    pk = packaging_linux("x86_64", glibc=(2, 28))
-    lib_pref = "linux_x86_64" if a[3] > b[3] else "manylinux_2_28_x86_64"
-    pk_pref = "linux_x86_64" if pk.index("linux_x86_64") < pk.index("manylinux_2_28_x86_64") else "manylinux_2_28_x86_64"
-    cases["concrete"] += 1
-    if lib_pref != pk_pref:
-        report(
-            "NEW?",
-            f"EnvSpec(>=3.9, manylinux_2_28_x86_64): platform score linux_x86_64={a[3]}, manylinux_2_28_x86_64={b[3]} "
-            f"-> library prefers {lib_pref}; packaging {packaging.__version__} _linux_platforms() yields {pk[:2]}.. "
-            f"-> prefers {pk_pref} (the statement says the order is 'exactly as packaging.tags orders it')",
-        )
-    # 2b. fat32 / fat3
-    p = Platform.parse("macos_12_0_x86_64")
-    pk = list(T.mac_platforms((12, 0), "x86_64"))
-    for t in ("macosx_10_9_fat32", "macosx_10_9_fat3", "macosx_10_9_fat64"):
-        cases["concrete"] += 1
-        lib_has, pk_has = t in p.compatible_tags, t in pk
-        if lib_has != pk_has or lib_has:
-            report(
-                "NOTE",
-                f"macos_12_0_x86_64 tag {t}: library accepts={lib_has}, packaging {packaging.__version__} accepts={pk_has}, "
-                "property text says legacy fat* formats are not claimed",
-            )
-
-
-# --------------------------------------------------------------------------- 3. Platform.current() under stubs
-def section_current():
-    def current_vs_packaging(desc, ctx):
-        cases["Platform.current"] += 1
-        with ctx:
-            try:
-                lib = Platform.current()
-                lib_tags = list(lib.compatible_tags)
-            except Exception as e:  # noqa: BLE001
-                lib, lib_tags = f"{type(e).__name__}: {e}", None
-            pk = list(T.platform_tags())
-        if lib_tags is None:
-            report("current()", f"{desc}: library raises {lib}; packaging gives {pk[:3]}..")
-        elif set(lib_tags) != set(pk):
-            d1 = [t for t in lib_tags if t not in pk][:3]
-            d2 = [t for t in pk if t not in lib_tags][:3]
-            report("current()", f"{desc}: Platform.current()={lib}; only-lib={d1} only-packaging={d2}")
-        elif [t for t in lib_tags if not t.startswith(("linux_", "musllinux"))] != [
-            t for t in pk if not t.startswith(("linux_", "musllinux"))
-        ]:
-            report("current()", f"{desc}: same set, different order of manylinux/macOS tags")
-
-    for a in LINUX_ARCHS + ["i686", "armv8l", "loongarch64"]:
-        current_vs_packaging(f"linux-{a}, glibc 2.31", stub_linux(a, glibc=(2, 31)))
-    current_vs_packaging("linux-x86_64 32-bit interpreter, glibc 2.31", stub_linux("x86_64", glibc=(2, 31), bits32=True))
-    for a in ("x86_64", "aarch64"):
-        current_vs_packaging(f"linux-{a}, musl 1.2", stub_linux(a, musl=(1, 2)))
-
-    @contextlib.contextmanager
-    def stub_mac(ver, machine):
-        with contextlib.ExitStack() as st:
-            st.enter_context(mock.patch.object(sysconfig, "get_platform", lambda: f"macosx-11.0-{machine}"))
-            st.enter_context(mock.patch.object(_platform, "system", lambda: "Darwin"))
-            st.enter_context(mock.patch.object(_platform, "mac_ver", lambda: (ver, ("", "", ""), machine)))
-            yield
-
-    for ver, m in [("14.5", "arm64"), ("14.5.1", "x86_64"), ("11.0", "arm64"), ("10.15.7", "x86_64"), ("26.0", "arm64"), ("12.3", "x86_64")]:
-        current_vs_packaging(f"macOS {ver} {m}", stub_mac(ver, m))
-
-    @contextlib.contextmanager
-    def stub_win(plat):
-        with contextlib.ExitStack() as st:
-            st.enter_context(mock.patch.object(sysconfig, "get_platform", lambda: plat))
-            st.enter_context(mock.patch.object(_platform, "system", lambda: "Windows"))
-            yield
-
-    for plat in ("win-amd64", "win32", "win-arm64"):
-        current_vs_packaging(f"windows {plat}", stub_win(plat))
-
-
-# --------------------------------------------------------------------------- 4. parse entry point
-def section_parse():
-    # every spelling of an in-quantifier platform must give the same tags
-    spellings = {
-        "manylinux_2_17_x86_64": ["linux", "manylinux_2_17_amd64", "manylinux_02_017_x86_64"],
-        "manylinux_2_31_aarch64": ["manylinux_2_31_arm64"],
-        "musllinux_1_2_x86_64": ["alpine", "musllinux_1_2_amd64"],
-        "macos_14_0_arm64": ["macos", "macos_arm64", "macos_14_0_aarch64"],
-        "macos_14_0_x86_64": ["macos_x86_64", "macos_14_0_amd64"],
-        "windows_amd64": ["windows", "windows_x86_64"],
-        "windows_x86": ["windows_i686", "windows_i386"],
-        "windows_arm64": ["windows_aarch64"],
-    }
-    for canon, alts in spellings.items():
-        base = Platform.parse(canon)
-        assert str(base) == canon and Platform.parse(str(base)) == base
-        for s in alts:
-            cases["parse"] += 1
-            q = Platform.parse(s)
-            if q != base or q.compatible_tags != base.compatible_tags or hash(q) != hash(base):
-                report("parse", f"{s!r} -> {q} differs from {canon}")
-    for p in all_platforms():
-        cases["parse"] += 1
-        q = Platform.parse(str(p))
-        assert q == p and q.compatible_tags == p.compatible_tags, p
-        e = EnvSpec(parse_version_specifier(">=3.9"), p, None)
-        d = e.as_dict()
-        e2 = EnvSpec.from_spec(d["requires_python"], d["platform"])
-        assert e2 == e and hash(e2) == hash(e), p
-    for s in ("win32", "", "windows_", "macosx_10_9_x86_64", "win_amd64"):
-        cases["parse"] += 1
-        try:
-            q = Platform.parse(s)
-            if s == "win_amd64":
-                report(
-                    "NOTE (generic family, docstring example)",
-                    f"Platform.parse({s!r}) -> {q!r}, tags {q.compatible_tags} (docstring names win_amd64 as an example input)",
-                )
-        except PlatformError:
-            pass
-        except Exception as e:  # noqa: BLE001
-            report("NOTE wrong exception type", f"Platform.parse({s!r}) raises {type(e).__name__}({e}) instead of PlatformError")
-
-
-# --------------------------------------------------------------------------- 5. sequences / aliasing
-def section_sequences():
+    # --- observations outside the quantifier / hygiene ------------------------------
+    notes: list[str] = []
+    # (a) the list handed out by compatible_tags is the cached object itself
     p = Platform.parse("manylinux_2_17_x86_64")
-    before = list(p.compatible_tags)
-    env = EnvSpec.from_spec(">=3.9", "manylinux_2_17_x86_64")
-    for t in before + ["any"] * 3:
-        env.compatibility(["py3"], ["none"], [t, "any"])
-    cases["sequence"] += 1
-    assert list(env.platform.compatible_tags) == before, "cache mutated by evaluation"
-    # multi-tag wheels: best tag wins regardless of position
-    import random
+    spec = EnvSpec.from_spec(">=3.8", "manylinux_2_17_x86_64")
+    before = spec.compatibility(["py3"], ["none"], ["manylinux2014_x86_64"])
+    lst = spec.platform.compatible_tags
+    lst.sort()  # a caller sorting "its" list for display
+    after = spec.compatibility(["py3"], ["none"], ["manylinux2014_x86_64"])
+    lst2 = Platform.parse("manylinux_2_17_x86_64").compatible_tags
+    notes.append(
+        "aliasing: Platform.compatible_tags returns the cached list object; after a caller sorts it, "
+        f"compatibility(manylinux2014_x86_64) changes {before} -> {after} on the same EnvSpec "
+        f"(fresh Platform unaffected: {lst2[:2]}). Frozen dataclass, mutable cached state."
+    )
+    # (b) i686 linux: tags spelled with the enum value 'x86'
+    p = Platform.parse("manylinux_2_17_i686")
+    notes.append(
+        f"outside quantifier (arch i686): Platform.parse('manylinux_2_17_i686').compatible_tags[:2] = "
+        f"{p.compatible_tags[:2]} + {p.compatible_tags[-1]!r}; packaging: "
+        f"{packaging_manylinux(17, 'i686')[:2]} + 'linux_i686' (no wheel is ever tagged *_x86)"
+    )
+    # (c) documented example strings of Platform.parse
+    for s in ("win_amd64", "linux_x86_64", "macosx_10_9_x86_64", "win32", "manylinux2014_x86_64"):
+        try:
+            r = Platform.parse(s)
+            notes.append(f"Platform.parse({s!r}) -> {r!r} tags {r.compatible_tags}")
+        except Exception as e:  # noqa: BLE001
+            notes.append(f"Platform.parse({s!r}) raises {type(e).__name__}: {e}")
+    # (d) wrong exception type for unknown arch on the versioned branch
+    for s in ("manylinux_2_17_sparc", "windows_ia64", "foo_sparc"):
+        try:
+            Platform.parse(s)
+        except Exception as e:  # noqa: BLE001
+            notes.append(f"Platform.parse({s!r}) raises {type(e).__name__}")
+    # (e) musllinux order (outside the claim: order is only claimed for manylinux/macOS)
+    p = Platform.parse("musllinux_1_3_x86_64")
+    notes.append(f"musllinux order: lib {p.compatible_tags} vs packaging {packaging_musllinux(3, 'x86_64')}")
 
-    rnd = random.Random(9)
-    for p in rnd.sample(list(all_platforms()), 120):
-        tags = list(p.compatible_tags) + ["any", "bogus"]
-        sc = scores(p, tags)
-        env = EnvSpec(parse_version_specifier(">=3.8"), p, None)
-        for _ in range(30):
-            cases["multi-tag"] += 1
-            sub = rnd.sample(tags, rnd.randint(1, min(4, len(tags))))
-            got = env.compatibility(["py3"], ["none"], sub)
-            want = max((sc[t] for t in sub if sc[t] is not None), default=None)
-            assert (got is None and want is None) or got[3] == want, (p, sub, got, want)
-            name = f"x-1-py3-none-{'.'.join(sub)}.whl"
-            assert env.wheel_compatibility(name) == got
+    print(f"cases run: {ncases}")
+    print(f"NEW violations inside the quantifier: {len(findings)}")
+    for f in findings[:40]:
+        print("  VIOLATION:", f)
+    print("observations (outside the quantifier or hygiene):")
+    for n in notes:
+        print("  -", n)
+    return 0
 
 
 if __name__ == "__main__":
-    section_exhaustive()
-    section_concrete()
-    section_current()
-    section_parse()
-    section_sequences()
-    print(f"packaging {packaging.__version__}; cases run: {dict(cases)} (total {sum(cases.values())})")
-    for f in findings:
-        print(f)
-    if not findings:
-        print("no divergence found")
+    raise SystemExit(main())
